@@ -61,11 +61,14 @@ class Out(object):
 ESCAPES = {"\\": "\\\\", "\n": "\\n", "\t": "\\t", "\r": "\\r"}
 
 
-def quote(text, q):
+def quote(text, q, raw_nl=None):
+    """raw_nl: write line feeds of the text as physical line breaks (the given terminator) instead of the escape."""
     ch = '"' if q == "double" else "'"
     out = []
     for c in text:
-        if c == ch:
+        if c == "\n" and raw_nl:
+            out.append(raw_nl)
+        elif c == ch:
             out.append("\\" + c)
         elif c in ESCAPES:
             out.append(ESCAPES[c])
@@ -83,7 +86,12 @@ def render_value(out, v, lm, path):
         if v.get("q", "double") == "none":
             out.tok("unquoted", v["v"])
         else:
-            out.tok("quoted", quote(v["v"], v["q"]))
+            if v.get("raw_nl") and "\n" in v["v"]:
+                # a quoted string running over several physical lines: its content has the file's own line terminators
+                out.tok("quoted", quote(v["v"], v["q"], raw_nl=out.nl))
+                out.line += v["v"].count("\n")
+            else:
+                out.tok("quoted", quote(v["v"], v["q"]))
     elif k == "list":
         out.tok("lbrack", "[")
         gaps = v.get("g") or []
@@ -166,9 +174,11 @@ def render(prog):
 
 # ----------------------------------------------------------------------------- expected parse result
 
-def expected_value(v):
+def expected_value(v, nl="\n"):
     """Plain Python structure the parser must deliver: ints, floats, strs, lists, dicts."""
     k = v["k"]
+    if k == "str" and v.get("raw_nl") and v.get("q", "double") != "none":
+        return v["v"].replace("\n", nl)
     if k == "int":
         return int(v["text"])
     if k == "float":
@@ -176,15 +186,15 @@ def expected_value(v):
     if k == "str":
         return v["v"]
     if k == "list":
-        return [expected_value(x) for x in v["items"]]
+        return [expected_value(x, nl) for x in v["items"]]
     if k == "tuple":
-        return {expected_value(key): expected_value(val) for key, val in v["pairs"]}
+        return {expected_value(key, nl): expected_value(val, nl) for key, val in v["pairs"]}
     raise ValueError(k)
 
 
 def expected_program(prog):
     return [
-        (c.get("result"), c["command"], [(a["name"], expected_value(a["value"])) for a in c["args"]])
+        (c.get("result"), c["command"], [(a["name"], expected_value(a["value"], prog.get("nl", "\n"))) for a in c["args"]])
         for c in prog["commands"]
     ]
 
@@ -330,7 +340,10 @@ QUOTED_ALPHABET = st.one_of(
 @st.composite
 def quoted_strings(draw, lone_backslash=False):
     text = draw(st.text(alphabet=QUOTED_ALPHABET, max_size=12))
-    return {"k": "str", "v": text, "q": draw(st.sampled_from(["double", "single"]))}
+    v = {"k": "str", "v": text, "q": draw(st.sampled_from(["double", "single"]))}
+    if "\n" in text and "\r" not in text and draw(st.booleans()):
+        v["raw_nl"] = True
+    return v
 
 
 UNQ_REST = st.text(alphabet=st.sampled_from(list("abcXYZ_/\\%$@!&*;<>?^{}|~. é0159+-")), max_size=10)
@@ -440,6 +453,8 @@ def strip_layout(prog):
         if k == "tuple":
             return {"k": "tuple", "pairs": [[v(a), v(b)] for a, b in x["pairs"]], "trail": False}
         if k == "str" and x.get("q") != "none":
+            if x.get("raw_nl"):
+                return {"k": "str", "q": "double", "v": x["v"].replace("\n", prog.get("nl", "\n"))}
             return dict(x, q="double")
         return dict(x)
     return {
